@@ -249,7 +249,7 @@ func TestVerifC17LLTrace(t *testing.T) {
 		var hwg sync.WaitGroup
 		accDone := make(chan struct{})
 		hseeds := rng.Int63()
-		var active, probed int32 // handlers alive (accepted, Close not yet returned); probe clients seen by a handler
+		var active, probed, probing int32 // handlers alive (accepted, Close not yet returned); probe clients seen by a handler; probe phase
 		go func() {
 			defer close(accDone)
 			hr := vx.Rand(hseeds)
@@ -266,6 +266,9 @@ func TestVerifC17LLTrace(t *testing.T) {
 				}
 				g.acc("a")
 				mode := hr.Intn(8)
+				if atomic.LoadInt32(&probing) == 1 && mode == 0 {
+					mode = 3 // probe phase: every handler waits for its client (a probe is recognised by what it sends)
+				}
 				delay := time.Duration(100+hr.Intn(400)) * time.Microsecond
 				linger := time.Duration(0)
 				if mode >= 6 {
@@ -406,6 +409,7 @@ func TestVerifC17LLTrace(t *testing.T) {
 		// probe: with nothing open, `final` clients get accepted (released capacity is usable), one more does not.
 		// Probe clients say "P" so that stale clients still sitting in the backlog are not mistaken for them.
 		var probes []net.Conn
+		atomic.StoreInt32(&probing, 1)
 		for i := 0; i < final+1; i++ {
 			var cl net.Conn
 			if tcp {
